@@ -1,5 +1,56 @@
-(* C01 -- placeholder while the parser model is being validated; theorems follow *)
-From Httoop Require Import Model.Parser.
-Theorem C01_placeholder : init = init.
-Proof. exact eq_refl. Qed.
-Print Assumptions C01_placeholder.
+(* C01 -- parser results do not depend on how the byte stream is fragmented.
+   Final statements only (closed by [exact]); for EVERY callee record and both state machines. *)
+From Coq Require Import ZArith.
+From Httoop Require Import Model.Parser Proofs.ParserFrag Corr.Parser.
+
+(* The reference machine: the implementation's state machine with its three buffer-dependent shortcuts
+   switched off -- no bare-LF line-end fallback (finding D14), no 411 peek at the octets behind a message
+   (D13), header sections parsed when complete instead of line-wise as they arrive (D34). *)
+Definition ref_cfg : config := reference.
+
+(* Part A (unconditional, all streams incl. truncated / hostile ones, all 2^(n-1) fragmentations):
+   the messages completed, the first error, and -- when there is no error -- the whole final state
+   (octets left over and the message in progress) of the reference machine are a function of the
+   concatenated stream alone. *)
+Theorem C01_reference_fragmentation_independent :
+  forall (C : callees) (k : kind) (frags1 frags2 : list bytes),
+  concat_bytes frags1 = concat_bytes frags2 ->
+  run_keep ref_cfg C k init frags1 = run_keep ref_cfg C k init frags2.
+Proof. intros C k. exact (fragmentation_independent ref_cfg C k eq_refl eq_refl eq_refl). Qed.
+Print Assumptions C01_reference_fragmentation_independent.
+
+(* any fragmentation equals the single call with everything *)
+Theorem C01_reference_equals_one_call :
+  forall (C : callees) (k : kind) (frags : list bytes),
+  run_keep ref_cfg C k init frags = parse ref_cfg C k init (concat_bytes frags).
+Proof.
+  intros C k frags. apply (run_keep_is_one_call ref_cfg C k eq_refl eq_refl eq_refl).
+  - apply init_quiescent.
+  - exact I.
+  - exact I.
+Qed.
+Print Assumptions C01_reference_equals_one_call.
+
+(* the step lemma everything rests on: feeding a ++ b in one call = feeding a, then b *)
+Theorem C01_parse_app :
+  forall (C : callees) (k : kind) s a b, ParserFuel.wf_st s -> crlf_st s ->
+  parse ref_cfg C k s (a ++ b) =
+  match parse ref_cfg C k s a with
+  | (s1, m1, None) => let '(s2, m2, e) := parse ref_cfg C k s1 b in (s2, m1 ++ m2, e)
+  | (_, m1, Some e) => (init, m1, Some e)
+  end.
+Proof. intros C k. exact (parse_app ref_cfg C k eq_refl eq_refl eq_refl). Qed.
+Print Assumptions C01_parse_app.
+
+(* non-vacuity: a pipelined chunked request + a GET, cut in the middle of a chunk, on the reference machine *)
+Definition ex_tables : tables := {|
+  t_start := [(X "504f5354202f20485454502f312e31", SlOk {| p11 := true; nobody := false |});
+              (X "474554202f20485454502f312e31", SlOk {| p11 := true; nobody := true |})];
+  t_hdrs := [((true, [(X "486f7374", X "78"); (X "5472616e736665722d456e636f64696e67", X "6368756e6b6564")]), HOk);
+             ((true, [(X "486f7374", X "78")]), HOk)];
+  t_decode := []; t_2047 := []; t_trailer := [] |}.
+Definition ex_stream := X "504f5354202f20485454502f312e310d0a486f73743a20780d0a5472616e736665722d456e636f64696e673a206368756e6b65640d0a0d0a330d0a6162630d0a300d0a0d0a474554202f20485454502f312e310d0a486f73743a20780d0a0d0a".
+Example C01_example :
+  (let '(_, ms, e) := run_keep ref_cfg (callees_of ex_tables) Server init [firstn 70 ex_stream; skipn 70 ex_stream] in (length ms, e))
+  = (2%nat, None).
+Proof. vm_compute. reflexivity. Qed.
